@@ -18,6 +18,7 @@ type monC17 struct {
 	logSeen                 int
 	kinds                   map[string]bool
 	rejectedTokenSubmission bool
+	tokenOwner              map[string]string // mailed token -> the account it was first mailed for
 }
 
 func (c *monC17) Init(m *Machine) { c.kinds = map[string]bool{} }
@@ -165,6 +166,9 @@ func (c *monC17) After(m *Machine, s *Step) *Violation {
 		}
 	}
 	// 3. mailed tokens leave only to the account's own addresses
+	if ch := m.W.Mail.Changed(); len(ch) > 0 {
+		return violation("C17", "mail-changed-after-handoff", "a mail already handed to the mailer was altered by a later request: %s", ch[0])
+	}
 	if s.Resp != nil {
 		for _, ml := range s.Resp.Mails {
 			if ml.Token == "" {
@@ -187,6 +191,14 @@ func (c *monC17) After(m *Machine, s *Step) *Violation {
 			if who == "" {
 				return violation("C17", "mailed-token-of-nobody", "a token mail went to %v but no account holds that token", ml.To)
 			}
+			// a token belongs to the account it was first mailed for, for good
+			if c.tokenOwner == nil {
+				c.tokenOwner = map[string]string{}
+			}
+			if first, seen := c.tokenOwner[ml.Token]; seen && first != who {
+				return violation("C17", "token-mailed-for-second-account", "a token first mailed for %q left the system again in a mail for %q (to %v)", first, who, ml.To)
+			}
+			c.tokenOwner[ml.Token] = who
 			for _, to := range ml.To {
 				ok := false
 				for _, a := range allowed {
@@ -220,7 +232,7 @@ func (c *monC17) End(m *Machine) *Violation {
 	return nil
 }
 
-var kindsC17 = append(append([]wk{}, worldKinds...), wk{"snip:register", 6}, wk{"snip:recover", 4}, wk{"confirm", 8}, wk{"recend", 6}, wk{"evend", 3}, wk{"snip:enrol-totp", 1}, wk{"reconfirm", 3}, wk{"snip:mangle", 12}, wk{"snip:evleak", 8})
+var kindsC17 = append(append([]wk{}, worldKinds...), wk{"snip:register", 6}, wk{"snip:recover", 4}, wk{"confirm", 8}, wk{"recend", 6}, wk{"evend", 3}, wk{"snip:enrol-totp", 1}, wk{"reconfirm", 3}, wk{"snip:mangle", 12}, wk{"snip:evleak", 8}, wk{"snip:evshare", 6})
 
 var profC17 = profile{
 	must: []string{"auth"}, may: []string{"confirm", "lock", "logout", "oauth2", "otp", "recover", "register", "remember"},
